@@ -25,12 +25,13 @@ import random
 from collections import Counter
 
 from .. import cgit
-from ..core import HarnessError, Violation, run_hypothesis
+from ..core import CpuLimit, HarnessError, cpu_limit, Violation, run_hypothesis
 from ..gen import c12_gen as G
 from ..model import c12_model as M
 from ..model.c12_model import DIR, EMPTY_TREE, GITLINK, LNK, is_dir, ifmt
 
 PROPERTY = "C12"
+CASE_CPU_SECONDS = 20.0  # per implementation and pair of listings (<= a few dozen entries): normal cost is milliseconds
 LEVEL = "exploration"
 NEEDS_RUST = True
 RULE = (
@@ -773,8 +774,15 @@ def check_pair(ctx, env, case, check="pair", use_git=None, record=True):
         outs = {}
         for impl in ("rust", "py"):
             F.impl = impl
-            with use_impl(impl):
-                outs[impl] = run_impl(F, case, A, B, bA, bB, a_id, b_id, labels)
+            try:
+                with use_impl(impl), cpu_limit(CASE_CPU_SECONDS):
+                    outs[impl] = run_impl(F, case, A, B, bA, bB, a_id, b_id, labels)
+            except CpuLimit as e:
+                import traceback
+
+                where = [f.name for f in traceback.extract_tb(e.__traceback__) if "/dulwich/" in f.filename][-1:] or ["?"]
+                F(f"does-not-terminate:{where[0]}", f"more than {CASE_CPU_SECONDS} CPU-seconds on listings of {len(A)}+{len(B)} entries "
+                                                     f"(normal: milliseconds), interrupted in dulwich function {where[0]}")
         F.impl = "rust-vs-py"
         for k in outs["rust"]:
             r, p = outs["rust"][k], outs["py"].get(k)
